@@ -684,6 +684,8 @@ class BitEval:
                 return self.truth(self.ev(t[2][0]))
             if call_is(t, "int") and len(t[2]) == 1:
                 a = self.ev(t[2][0])
+                if isinstance(a, (Pred, bool)):
+                    return self.to_bits(a)          # int(flag) is the flag as a 0 / 1 bit
                 la = self.as_lin(a)
                 if la is not None and all(c.denominator == 1 for c in la.coefs.values()) and la.const.denominator == 1:
                     return a
